@@ -13,6 +13,7 @@ const DataLayout *DLp;
 Config CFG;
 std::map<const GlobalVariable *, int> GlobalRegion;
 static int ErrnoRegion = -1;
+static int MapFailedRegion = -1;
 
 Val constToVal(State &S, const Constant *C) {
   if (auto *ci = dyn_cast<ConstantInt>(C)) return Val::capint(ci->getValue());
@@ -30,6 +31,8 @@ Val constToVal(State &S, const Constant *C) {
   }
   if (auto *ce = dyn_cast<ConstantExpr>(C)) {
     if (ce->getOpcode() == Instruction::PtrToInt) return constToVal(S, ce->getOperand(0));
+    if (ce->getOpcode() == Instruction::IntToPtr)
+      if (auto *ci = dyn_cast<ConstantInt>(ce->getOperand(0))) { if (ci->isMinusOne()) return Val::ptr(MapFailedRegion, 0); if (ci->isZero()) return Val::null(); }
   }
   if (C->getType()->isIntegerTy()) return Val::top(C->getType()->getIntegerBitWidth());
   return Val::unk();
@@ -218,6 +221,136 @@ bool modelCall(State &S, const CallBase *CB, const std::string &name, std::vecto
       R.live = false;
     }
     finishCall(S, CB, Val::unk()); return true;
+  }
+
+  // ---- string scanning models -------------------------------------------------
+  if (name == "strcspn" || name == "strspn") {
+    Val sp = arg(0); bool ok; std::string set = globalCString(S, arg(1), ok);
+    if (!ok || sp.k != Val::PTR || sp.reg < 0) { alarm(S, "MODEL", CB, name + ": set is not a constant string or string untracked"); finishCall(S, CB, Val::top(64)); return true; }
+    std::bitset<256> stop; stop.set(0);
+    if (name == "strcspn") for (unsigned char c : set) stop.set(c);
+    else { stop.set(); for (unsigned char c : set) stop.reset(c); }
+    const Region &R = S.regions[sp.reg];
+    i128 olo, ohi; offsetBounds(S, sp, olo, ohi);
+    if (olo != ohi) { finishCall(S, CB, Val::range(64, ConstantRange::getNonEmpty(APInt(64, 0), APInt(64, 1ULL << 62)), P_OTHER)); return true; }
+    i128 lim = R.gv ? (i128)R.sizeHi : (i128)R.rd().bytes.size();
+    i128 lo = -1, hi = -1; uint8_t prov = 0;
+    for (i128 i = olo; i < lim; i++) {
+      ByteCell c = readByte(S, R, i); prov |= c.prov;
+      bool may = (c.cs & stop).any(), must = (c.cs & ~stop).none();
+      if (may && lo < 0) lo = i - olo;
+      if (must) { hi = i - olo; break; }
+    }
+    if (lo < 0) lo = lim - olo;
+    Val r;
+    if (hi >= 0) r = Val::range(64, ConstantRange::getNonEmpty(APInt(64, (uint64_t)lo), APInt(64, (uint64_t)hi) + 1), prov);
+    else {
+      r = Val::range(64, ConstantRange::getNonEmpty(APInt(64, (uint64_t)lo), APInt(64, 1ULL << 62)), prov);
+      // bounded by the string length when that is a root
+      if (R.isString && R.sizeRoot >= 0) { i128 mx = S.roots[R.sizeRoot].hi + R.sizeK - 1 - olo; if (mx >= lo && mx < ((i128)1 << 62)) r = Val::range(64, ConstantRange::getNonEmpty(APInt(64, (uint64_t)lo), APInt(64, (uint64_t)mx) + 1), prov); }
+    }
+    finishCall(S, CB, r); return true;
+  }
+  if (name == "strchr" || name == "strrchr") {
+    Val sp = arg(0), cv = arg(1);
+    if (sp.k != Val::PTR || sp.reg < 0 || !cv.isConst()) { alarm(S, "MODEL", CB, name + ": untracked string or non-constant character"); finishCall(S, CB, Val::unk()); return true; }
+    unsigned ch = (unsigned)(cv.constVal().getZExtValue() & 0xff);
+    const Region &R = S.regions[sp.reg];
+    i128 olo, ohi; offsetBounds(S, sp, olo, ohi);
+    i128 lim = R.gv ? (i128)R.sizeHi : (i128)R.rd().bytes.size();
+    if (olo != ohi) { Val r = sp; r.r = ConstantRange::getNonEmpty(APInt(64, (uint64_t)olo, true), APInt(64, (uint64_t)lim)); r.root = -1; r.maybenull = true; finishCall(S, CB, r); return true; }
+    // positions where ch may be found before the (definite) end
+    i128 first = -1, last = -1, end = -1; bool mustFind = false;
+    for (i128 i = olo; i < lim; i++) {
+      ByteCell c = readByte(S, R, i);
+      if (c.cs[ch]) { if (first < 0) first = i; last = i; if (c.cs.count() == 1 && name == "strchr") { mustFind = true; end = i; break; } if (c.cs.count() == 1) mustFind = true; }
+      if (ch != 0 && c.cs[0] && c.cs.count() == 1) { end = i; break; }
+      if (ch != 0 && c.cs[0] && name == "strchr" && first < 0) { /* may end before any match */ }
+    }
+    bool unboundedTail = end < 0;
+    if (first < 0 && !unboundedTail) { finishCall(S, CB, Val::null()); return true; }
+    i128 hiPos = unboundedTail ? ((R.isString && R.sizeRoot >= 0) ? std::max(first < 0 ? olo : first, S.roots[R.sizeRoot].hi + R.sizeK - 1) : lim) : (name == "strchr" && mustFind ? end : last);
+    i128 loPos = first < 0 ? lim : first;
+    if (hiPos < loPos) hiPos = loPos;
+    Val found = Val::ptr(sp.reg, 0);
+    found.r = ConstantRange::getNonEmpty(APInt(64, (uint64_t)loPos), APInt(64, (uint64_t)hiPos) + 1);
+    found.prov = sp.prov;
+    bool definitelyFound = mustFind && (name == "strchr" ? true : true) && !( /* a NUL may precede */ false);
+    // decide whether NULL is possible: a definite occurrence before any possible NUL
+    bool nullPossible = true;
+    if (mustFind) {
+      nullPossible = false;
+      for (i128 i = olo; i < lim; i++) { ByteCell c = readByte(S, R, i); if (c.cs[ch] && c.cs.count() == 1) break; if (c.cs[0] && ch != 0) { nullPossible = true; break; } }
+    }
+    (void)definitelyFound;
+    if (nullPossible) { State T = S; finishCall(T, CB, Val::null()); forks.push_back(T); }
+    finishCall(S, CB, found); return true;
+  }
+  if (name == "strtoul") {
+    Val sp = arg(0), ep = arg(1);
+    if (sp.k != Val::PTR || sp.reg < 0) { alarm(S, "MODEL", CB, "strtoul: untracked string"); finishCall(S, CB, Val::top(64)); return true; }
+    const Region &R = S.regions[sp.reg];
+    i128 olo, ohi; offsetBounds(S, sp, olo, ohi);
+    i128 lim = R.gv ? (i128)R.sizeHi : (i128)R.rd().bytes.size();
+    std::bitset<256> dig; for (int c = '0'; c <= '9'; c++) dig.set(c);
+    std::bitset<256> lead; for (unsigned char c : std::string(" \t\n\v\f\r+-")) lead.set(c);
+    Val res = Val::top(64, P_SETTING);
+    i128 dlo = 0, dhi = 0;
+    if (olo == ohi) {
+      bool exact = true; unsigned __int128 val = 0; bool ovf = false; bool messy = false;
+      i128 i = olo;
+      ByteCell c0 = readByte(S, R, i);
+      if ((c0.cs & lead).any()) messy = true;
+      bool stoppedLo = false;
+      for (; i < lim; i++) {
+        ByteCell c = readByte(S, R, i);
+        bool may = (c.cs & dig).any(), must = (c.cs & ~dig).none();
+        if (!may) break;
+        if (!must && !stoppedLo) { dlo = i - olo; stoppedLo = true; }
+        if (c.cs.count() == 1 && exact) { int d = 0; for (int k = '0'; k <= '9'; k++) if (c.cs[k]) d = k - '0'; val = val * 10 + d; if (val > (unsigned __int128)UINT64_MAX) ovf = true; }
+        else exact = false;
+        if (i - olo > 40) break;
+      }
+      dhi = i - olo; if (!stoppedLo) dlo = dhi;
+      if (i >= lim && lim - olo <= 40 && !R.gv) { dhi = std::min((i128)40, (R.isString && R.sizeRoot >= 0) ? S.roots[R.sizeRoot].hi + R.sizeK - 1 - olo : (i128)40); if (dhi < dlo) dhi = dlo; }
+      if (messy) { res = Val::top(64, P_SETTING); dlo = 0; dhi = std::max(dhi, (i128)1) + 1; }
+      else if (exact && dlo == dhi) { res = Val::capint(APInt(64, ovf ? UINT64_MAX : (uint64_t)val)); res.prov = P_SETTING; if (ovf) { S.errnoSet = true; S.errnoVal = Val::cint(32, 34); } }
+      else if (dhi <= 19) { unsigned __int128 mx = 1; for (i128 k = 0; k < dhi; k++) mx *= 10; res = Val::range(64, ConstantRange::getNonEmpty(APInt(64, 0), APInt(64, (uint64_t)(mx - 1)) + 1), P_SETTING); }
+    } else { dlo = 0; dhi = 40; }
+    if (ep.k == Val::PTR && ep.reg >= 0) {
+      Val e = sp; e.root = -1; e.kb = KnownBits(64);
+      e.r = ConstantRange::getNonEmpty(APInt(64, (uint64_t)(olo + dlo), true), APInt(64, (uint64_t)(ohi + dhi), true) + 1);
+      doStore(S, ep, e, 8, CB);
+    }
+    finishCall(S, CB, res); return true;
+  }
+  if (name == "realloc") {
+    Val p = arg(0), n = arg(1); tighten(S, n);
+    { State T = S; T.errnoSet = true; T.errnoVal = Val::cint(32, 12);
+      T.events.push_back("{\"k\":\"allocfail\",\"fn\":\"realloc\",\"line\":" + std::to_string(lineOf(CB)) + "}");
+      finishCall(T, CB, Val::null()); forks.push_back(T); }
+    if (p.k == Val::PTR && p.reg >= 0) { Region &O = S.regions[p.reg]; if (O.kind != RK_HEAP) alarm(S, "FREE", CB, "realloc of non-heap region " + O.name); else if (!O.live) alarm(S, "UAF", CB, "realloc of freed block"); O.live = false; O.d.reset(); }
+    int r = newRegion(S, "realloc@" + std::to_string(lineOf(CB)), RK_HEAP, umin(n), umax(n));
+    if (n.root >= 0) { S.regions[r].sizeRoot = n.root; S.regions[r].sizeK = n.rk; }
+    finishCall(S, CB, Val::ptr(r, 0)); return true;
+  }
+  if (name == "mmap") {
+    Val n = arg(1); tighten(S, n);
+    { State T = S; T.errnoSet = true; T.errnoVal = Val::cint(32, 12);
+      T.events.push_back("{\"k\":\"allocfail\",\"fn\":\"mmap\",\"line\":" + std::to_string(lineOf(CB)) + "}");
+      finishCall(T, CB, Val::ptr(MapFailedRegion, 0)); forks.push_back(T); }
+    int r = newRegion(S, "mmap@" + std::to_string(lineOf(CB)), RK_HEAP, umin(n), umax(n));
+    S.regions[r].w().rest = constCell(0);
+    S.events.push_back("{\"k\":\"map\",\"region\":" + std::to_string(r) + "}");
+    finishCall(S, CB, Val::ptr(r, 0)); return true;
+  }
+  if (name == "munmap") {
+    Val p = arg(0);
+    { State T = S; T.errnoSet = true; T.errnoVal = Val::cint(32, 22);
+      T.events.push_back("{\"k\":\"allocfail\",\"fn\":\"munmap\",\"line\":" + std::to_string(lineOf(CB)) + "}");
+      finishCall(T, CB, Val::capint(APInt(32, (uint64_t)-1, true))); forks.push_back(T); }
+    if (p.k == Val::PTR && p.reg >= 0) { Region &O = S.regions[p.reg]; if (!O.live) alarm(S, "FREE", CB, "munmap of a dead mapping"); O.live = false; O.d.reset(); S.events.push_back("{\"k\":\"unmap\",\"region\":" + std::to_string(p.reg) + "}"); }
+    finishCall(S, CB, Val::cint(32, 0)); return true;
   }
   auto it = CFG.contracts.find(name);
   if (it != CFG.contracts.end()) return applyContract(S, CB, it->second);
